@@ -36,6 +36,7 @@ type Engine struct {
 	mu        sync.Mutex
 	repo      string
 	floatIDs  map[string]string
+	preludeDefs map[string]bool
 }
 
 func newEngine(repo string) *Engine {
@@ -46,6 +47,30 @@ func newEngine(repo string) *Engine {
 }
 
 func (e *Engine) noteGlobSort(k string, s Sort) { e.globSorts[k] = s }
+
+// definedInPrelude reports whether the SMT prelude (built-ins and smt{} blocks of
+// the contract files) already declares or defines the function.
+func (e *Engine) definedInPrelude(name string) bool {
+	if e.preludeDefs == nil {
+		e.preludeDefs = map[string]bool{}
+		p := e.prelude()
+		for _, kw := range []string{"(define-fun ", "(declare-fun ", "(define-fun-rec "} {
+			rest := p
+			for {
+				i := strings.Index(rest, kw)
+				if i < 0 {
+					break
+				}
+				rest = rest[i+len(kw):]
+				j := strings.IndexAny(rest, " \n\t(")
+				if j > 0 {
+					e.preludeDefs[rest[:j]] = true
+				}
+			}
+		}
+	}
+	return e.preludeDefs[name]
+}
 
 func (e *Engine) strID(s string) int {
 	if id, ok := e.strIDs[s]; ok {
@@ -212,6 +237,24 @@ func (e *Engine) resolveType(s string) types.Type {
 			return nil
 		}
 		return types.NewPointer(t)
+	}
+	if strings.HasPrefix(s, "map[") {
+		depth := 0
+		for i := 3; i < len(s); i++ {
+			if s[i] == '[' {
+				depth++
+			} else if s[i] == ']' {
+				depth--
+				if depth == 0 {
+					k, v := e.resolveType(s[4:i]), e.resolveType(s[i+1:])
+					if k == nil || v == nil {
+						return nil
+					}
+					return types.NewMap(k, v)
+				}
+			}
+		}
+		return nil
 	}
 	if strings.HasPrefix(s, "[]") {
 		t := e.resolveType(s[2:])
